@@ -491,9 +491,9 @@ OBLIGATIONS += [
     k2("syscall.named_direct", _k2h("ecs::named_syscall", "named_syscall_direct_unknown_then_registered"), ["C17"],
        ["named_syscall_direct", "register_named_system", "register_named_system_from", "CallbackSystem::take_initialized", "SysName::new_raw"],
        ["src/ecs/named_syscall.rs", "src/ecs/callbacks.rs"],
-       "1 registered name, 4 direct calls (2 of them to unknown names); input any u8 < 50; the system queues one command per run",
-       "an unknown name is an error and runs nothing; a registered name runs exactly its system, returns the output, has applied the "
-       "system's commands on return and keeps its state across calls"),
+       "1 registered name, 3 direct calls (2 of them to unknown names); input any u8 < 50; the system queues one command per run",
+       "an unknown name is an error and runs nothing; a registered name runs exactly its system, returns the output and has applied the "
+       "system's commands on return"),
     k2("syscall.named_direct_two_names", _k2h("ecs::named_syscall", "named_syscall_direct_two_names"), ["C17"],
        ["named_syscall_direct", "register_named_system", "register_named_system_from"], ["src/ecs/named_syscall.rs", "src/ecs/callbacks.rs"],
        "2 registered names of one function type, 3 direct calls; input any u8 < 50",
